@@ -255,9 +255,29 @@ def expected_with_room(jp, case):
     return box[0] if box else None
 
 
+SLOW_STDIN = [0]
+
+
 def run_subprocess(repo, argv, stdin):
     env = dict(os.environ, PYTHONPATH=repo, PYTHONUTF8="1", PYTHONDONTWRITEBYTECODE="1")
     env.pop("PYTHONHASHSEED", None)
+    SLOW_STDIN[0] += 1
+    if stdin and SLOW_STDIN[0] % 6 == 0:
+        # a producer that delivers the document late and in two pieces (a pipe from a slow command)
+        import time
+        p = subprocess.Popen([sys.executable, "-m", "jsonpath_rfc9535"] + argv, stdin=subprocess.PIPE, stdout=subprocess.PIPE, stderr=subprocess.PIPE, env=env, cwd="/")
+        try:
+            time.sleep(0.4)
+            p.stdin.write(stdin[:len(stdin) // 2])
+            p.stdin.flush()
+            time.sleep(0.1)
+        except (BrokenPipeError, OSError):
+            pass
+        try:
+            out, err = p.communicate(stdin[len(stdin) // 2:], timeout=120)
+        except (BrokenPipeError, OSError):
+            out, err = p.communicate(timeout=120)
+        return p.returncode, out.decode("utf-8", "replace"), err.decode("utf-8", "replace")
     p = subprocess.run([sys.executable, "-m", "jsonpath_rfc9535"] + argv, input=stdin if stdin is not None else b"", capture_output=True, env=env, timeout=120, cwd="/")
     return p.returncode, p.stdout.decode("utf-8", "replace"), p.stderr.decode("utf-8", "replace")
 
